@@ -1,7 +1,7 @@
 (* C09: concurrent cache use is race-free, deadlock-free and behaves like some sequential order.
    Property theorems only.  Gen_locktab.table is REGENERATED from /repo/src/cache_storage.cpp on every run
    (tools/locktab.py): the *_table theorems are re-checked against the current source each time. *)
-From CppcmsV Require Import Base.Tac C09.Defs C09.Proofs1 C09.Proofs2 C09.Proofs3 C09.Proofs4 C09.Proofs5 C09.Proofs6 gen.Gen_locktab.
+From CppcmsV Require Import Base.Tac C09.Defs C09.Proofs1 C09.Proofs2 C09.Proofs3 C09.Proofs4 C09.Proofs5 C09.Proofs6 C09.LockModel C09.Proofs7 gen.Gen_locktab.
 From CppcmsV Require C07.Defs C09.Seq.
 From Coq Require Import String.
 
@@ -161,11 +161,15 @@ Print Assumptions cache_conflict_serializable.
    different calls are ordered like the lock points, the conflict graph is acyclic), each lock point lies between the
    invocation and the response of its call, and the lock-point order respects real-time precedence: exactly the
    premises under which the calls may be regarded as taking effect atomically at their lock points.
-   GAP (named): the classical step from (iii) to the atomic-effect system of (i) - a conflict-serializable execution
-   computes the same values as the serial execution in lock-point order - is not formalised, because the data semantics
-   of an individual member access is not modelled (the table is a may-access abstraction of each method body); the
-   sequential meaning of a whole method body is C07's model, tied to the code by correspondence.  That step is argued
-   on paper (docs/C09.md) and searched on the real cache (recorded histories checked linearizable by bin/check). *)
+   (iv) lock_model_linearizable (below) - the data-carrying lock-level model, in which fetch is split into lookup, LRU
+   move under lru_mutex and copy-out with other threads interleaving, is linearizable w.r.t. the sequential model.
+   GAP (named): (iv) takes as atomic the steps that groups 1-3b justify treating as atomic (a whole mutator body under the
+   exclusive lock; the LRU move under lru_mutex; each read of a fetch/stats under the shared lock, during which no
+   member it reads is written).  The formal connection between the access table (a may-access abstraction of each
+   method body, without data semantics for an individual member access) and the step granularity of (iv) - i.e. that
+   the real method body, run without conflicting interference, computes the step of the sequential model - is not a
+   Coq theorem: it is C07's correspondence (sequential meaning of each body) plus the paper argument in docs/C09.md,
+   and it is searched on the real cache (recorded histories checked linearizable by bin/check). *)
 Theorem atomic_effect_linearizable :
   forall (St Op Ret : Type) (eff : St -> Op -> St * Ret) (s0 : St) (c : lconfig St Op Ret),
     lreachable St Op Ret eff s0 c -> linearizable St Op Ret eff s0 (l_hist St Op Ret c).
@@ -183,6 +187,23 @@ Theorem cache_linearizable_partial : forall (limit : N) (now : Z) c,
   linearizable cstate Seq.cop Seq.cret (cache_eff now) (cache_s0 limit) (l_hist _ _ _ c).
 Proof. exact cache_atomic_linearizable_l. Qed.
 Print Assumptions cache_linearizable_partial.
+
+(* (iv) the lock-level model WITH data (LockModel.v): the sequential object behind a readers-writer lock and the LRU
+   mutex, every call split the way the code splits it - mutators: wait / lock exclusive / whole effect / unlock / return;
+   stats: wait / lock shared / read / unlock / return; fetch: wait / lock shared / lookup (hit or miss decision) /
+   [hit: LRU move, atomic under lru_mutex] / copy-out / unlock / return - with arbitrary interleaving of other threads
+   between any two steps.  Every history of this system is linearizable w.r.t. the sequential model (any limit, any
+   clock value, any number of threads and calls).  Linearization points: the effect step; the read; the LRU move (hit)
+   or the lookup (miss). *)
+Theorem lock_model_linearizable : forall (now : Z) (limit : N) c, creachable now limit c ->
+  linearizable cst Seq.cop Seq.cret (Seq.eff now) (C07.Defs.init limit) (cc_hist c).
+Proof. exact lock_model_linearizable_l. Qed.
+Print Assumptions lock_model_linearizable.
+
+Theorem lock_model_exclusion : forall (now : Z) (limit : N) c, creachable now limit c ->
+  forall t u, t <> u -> holds_x (cc_ph c t) = true -> holds_x (cc_ph c u) = false /\ holds_s (cc_ph c u) = false.
+Proof. exact lock_model_exclusion_l. Qed.
+Print Assumptions lock_model_exclusion.
 
 (* ---------- non-vacuity ---------- *)
 (* two threads are concurrently inside fetch, both under the shared lock, one of them inside the lru_mutex scope:
@@ -308,4 +329,44 @@ Proof.
     + apply (do_acc_step _ xg7 1%nat xh1 [mkF (fheld xh0) (faccs xh0) []] f_primary Rd 1%nat); [reflexivity|vm_compute; tauto|reflexivity].
   - exists (mkA 0 f_primary Wr 2 (fheld xf1)), (mkA 1 f_primary Rd 7 (fheld xh1)).
     vm_compute. repeat split; try tauto; try lia; try discriminate.
+Qed.
+
+(* the lock-level data model really interleaves: two fetches of the same key are inside their shared periods at the
+   same time, both decide hit, then move the LRU entry in the opposite order, then copy out; both return the stored
+   entry (and by lock_model_linearizable the history is linearizable) *)
+Definition lk : C07.Defs.key := [107; 49]%N.
+Definition lv : list N := [1; 2; 3]%N.
+Ltac fwd H tac :=
+  let H' := fresh "H" in
+  eassert (H' : creachable 1000%Z 0%N _); [eapply creach_step; [exact H | tac] | clear H; rename H' into H].
+Ltac alone := let u := fresh "u" in let Hu := fresh "Hu" in
+  intros u Hu; destruct u as [|[|[|u]]]; try (exfalso; now apply Hu); try split; reflexivity.
+Example lock_model_nonvacuous :
+  exists c, creachable 1000%Z 0%N c /\
+    cc_hist c = [Inv _ _ 0 0 (Seq.OStore lk lv [] 2000%Z None); Res _ _ 0 Seq.RUnit;
+                 Inv _ _ 1 1 (Seq.OFetch lk); Inv _ _ 2 2 (Seq.OFetch lk);
+                 Res _ _ 1 (Seq.RHit lv [lk] 2000%Z 0%N); Res _ _ 2 (Seq.RHit lv [lk] 2000%Z 0%N)] /\
+    C07.Defs.lru (cc_st c) = [lk].
+Proof.
+  pose proof (creach_init 1000%Z 0%N) as H.
+  fwd H ltac:(apply (cs_inv _ _ 0%nat (Seq.OStore lk lv [] 2000%Z None)); reflexivity).
+  fwd H ltac:(eapply (cs_lock_x _ _ 0%nat); [reflexivity|alone]).
+  fwd H ltac:(eapply (cs_effect _ _ 0%nat); reflexivity).
+  fwd H ltac:(eapply (cs_unlock_x _ _ 0%nat); reflexivity).
+  fwd H ltac:(eapply (cs_res_x _ _ 0%nat); reflexivity).
+  fwd H ltac:(apply (cs_inv _ _ 1%nat (Seq.OFetch lk)); reflexivity).
+  fwd H ltac:(apply (cs_inv _ _ 2%nat (Seq.OFetch lk)); reflexivity).
+  fwd H ltac:(eapply (cs_lock_s _ _ 1%nat); [reflexivity|alone]).
+  fwd H ltac:(eapply (cs_lock_s _ _ 2%nat); [reflexivity|alone]).
+  fwd H ltac:(eapply (cs_hit _ _ 1%nat); reflexivity).
+  fwd H ltac:(eapply (cs_hit _ _ 2%nat); reflexivity).
+  fwd H ltac:(eapply (cs_move _ _ 2%nat); reflexivity).
+  fwd H ltac:(eapply (cs_move _ _ 1%nat); reflexivity).
+  fwd H ltac:(eapply (cs_copy _ _ 1%nat); reflexivity).
+  fwd H ltac:(eapply (cs_copy _ _ 2%nat); reflexivity).
+  fwd H ltac:(eapply (cs_unlock_s _ _ 1%nat); reflexivity).
+  fwd H ltac:(eapply (cs_unlock_s _ _ 2%nat); reflexivity).
+  fwd H ltac:(eapply (cs_res_s _ _ 1%nat); reflexivity).
+  fwd H ltac:(eapply (cs_res_s _ _ 2%nat); reflexivity).
+  eexists. split; [exact H|]. split; vm_compute; reflexivity.
 Qed.
